@@ -38,3 +38,32 @@ Theorem C10_accepted_message_is_authentic :
   (exists p', registered_as p' (m_sender m) pid).
 Proof. exact accepted_message_is_authentic. Qed.
 Print Assumptions C10_accepted_message_is_authentic.
+
+(* the second sentence of the property - "a signed message is effective only for the round and
+   protocol step its author produced it for" - is FALSE of the code (open findings
+   C10-cross-round-replay, C10-cross-event-replay; the harness replays both on real nodes, where the
+   model agrees with the implementation): the signature covers the payload bytes only.  Witnesses
+   on a concrete node with two rounds proposed to the same participants: the very bytes and
+   signature of a confirmation of round 8 are accepted in round 9 ... *)
+Require Import Node.ReplayRefuted.
+Theorem C10_effective_only_for_its_round_refuted :
+  exists st m m', same_signed_bytes m m' /\ m_round m <> m_round m' /\ m_event m = m_event m' /\
+                  accepted st m /\ accepted st m'.
+Proof. exact effective_only_for_its_round_refuted. Qed.
+Print Assumptions C10_effective_only_for_its_round_refuted.
+
+(* ... and, under another event name of the same request shape, in round 8 itself ... *)
+Theorem C10_effective_only_for_its_step_refuted :
+  exists st m m', same_signed_bytes m m' /\ m_event m <> m_event m' /\ m_round m = m_round m' /\
+                  accepted st m /\ accepted st m'.
+Proof. exact effective_only_for_its_step_refuted. Qed.
+Print Assumptions C10_effective_only_for_its_step_refuted.
+
+(* ... where it cancels, in its author's name, the round the author agreed to *)
+Theorem C10_replayed_confirmation_cancels_the_round :
+  same_signed_bytes genuine replayed_event /\ m_event genuine <> m_event replayed_event /\
+  m_round genuine = m_round replayed_event /\
+  accepted two_rounds replayed_event /\
+  dstate_after two_rounds genuine = Some "state_sig_proposal_await_participants_confirmations"%string /\
+  dstate_after two_rounds replayed_event = Some "state_sig_proposal_canceled_by_participant"%string.
+Proof. exact cross_event_replay_accepted. Qed.
